@@ -10,7 +10,7 @@ ASSUMPTIONS = [
     "exhaustive only within the alphabet and bounds listed in coverage.bounds",
 ]
 MENU = ["leaf:lzok", "leaf:cw", "ins:sync", "ins:iv", "leaf:sh", "leaf:re", "ins:yempty", "ins:ynone", "ins:mkitem", "ins:mkchild", "wrap:try", "ins:raise", "item:err", "item:unset", "shape:T", "shape:D", "shape:nest", "leaf:n"]
-CATS = ["resumed-uncomputed", "step-count", "step-after-computed", "task-computed-twice", "task-not-computed", "awaited-not-computed", "start-order", "started-extra", "started-missing", "scheduler-residue", "provider-ran-twice", "hang", "worker-died", "r2-started"]
+CATS = ["resumed-uncomputed", "step-count", "step-after-computed", "task-computed-twice", "task-not-computed", "awaited-not-computed", "start-order", "started-extra", "started-missing", "scheduler-residue", "provider-ran-twice", "hang", "worker-died", "r2-started", "r2-batch", "r2-flush-count", "r2-diverge"]
 _MENU42 = {"menu": ["ins:sync", "ins:iv", "leaf:sh", "leaf:re", "ins:mkchild", "wrap:try", "ins:raise", "item:err"]}
 LADDER = {"quick": [(5, 0, ["call"]), (4, 1, ["call"]), (3, 2, ["call"])],
           "thorough": [(6, 0, ["call"]), (5, 1, ["call"]), (4, 2, ["call"], _MENU42), (3, 2, ["call"]), (2, 3, ["call"])]}
